@@ -19,8 +19,8 @@ import mkbase, corrupt
 import c02 as H          # shared harness: worker pool, binding map, TLC line validation
 
 PID = "C01"
-QUICK_N = int(os.environ.get("C01_QUICK_N", "2000"))
-QUICK_PAIRS = int(os.environ.get("C01_QUICK_PAIRS", "300"))
+QUICK_N = int(os.environ.get("C01_QUICK_N", "1500"))
+QUICK_PAIRS = int(os.environ.get("C01_QUICK_PAIRS", "200"))
 
 
 def _case(args):
@@ -127,6 +127,10 @@ def run(tier):
         if os.environ.get("C01_PROPOSE"):       # development aid: dump every non-convergent element for triage (never read back by the check)
             with open(os.environ["C01_PROPOSE"], "w") as f:
                 json.dump([dict(done[i]["meta"], key=signature(done[i]["meta"])) for i in res["bad"]], f)
+        ev.cov["selftest"] = {"recorded": "2026-09-28", "tree": "/repo a9b77b7d + fixes/C02_pass0_declined_exit.patch + fixes/C02_extent_node_depth.patch",
+                              "mutants/C01_pass5_bb_not_dirty.patch": "CAUGHT (second run repeats the block bitmap differences)",
+                              "mutants/C01_pass4_nlink_not_stored.patch": "CAUGHT (second run repeats PR_4_BAD_REF_COUNT)",
+                              "note": "recorded when the check was built with bin/selftest --patch <fixes + mutant> C01; not re-measured by a normal run"}
         ev.cov["verdicts"] = st
         ev.cov["failure_signatures"] = {k: len(v) for k, v in sorted(clusters.items())}
         ev.cov["rule"] = ("distinct_nontrivial = universe elements (profile, recipe) for which the repairing run fixed at least one problem and claimed success; "
